@@ -16,6 +16,10 @@ consecutive `if c:` blocks (c is unknown, so all of them stay live).  Kinds:
   P property     class n_i: @property def a(self): return n_j().a
   G generator    def g(): yield n_j     /  for n_i in g(): pass
   X __getattr__  class n_i: def __getattr__(self, name): return n_j().a
+  R :rtype:      def n_i(): \"\"\":rtype: n_j()\"\"\"          (description kinds: dedicated family)
+  S str return   def n_i() -> "n_j()": pass
+  Q :type q:     def n_i(q): \"\"\":type q: n_j()\"\"\"; return q
+  U str param    def n_i(q: "n_j()"): return q
 
 Layout: one file when every atom is a live dependency there (jedi, like Python, does not see a
 module-level name that is bound further down in the same scope: forward A/H atoms would be
@@ -29,6 +33,14 @@ KINDS = 'ACHITLDPGX'
 KIND_NAMES = {'A': 'assignment', 'C': 'call', 'H': 'inheritance', 'I': 'import',
               'T': 'attribute', 'L': 'container', 'D': 'decorator', 'P': 'property',
               'G': 'generator', 'X': '__getattr__'}
+# "description" kinds: the type of n_i() is *described* by text that calls n_j - such text is
+# re-parsed on every evaluation, so only the execution budget can stop a cycle through it.
+# They extend the alphabet in a dedicated family (DESC_ALPHABET) and in chain_/ring_ families.
+DESC_KINDS = 'RSQU'
+KIND_NAMES.update({'R': 'docstring :rtype: <call>', 'S': "string return annotation '<call>'",
+                   'Q': 'docstring :type q: <call>', 'U': "string parameter annotation '<call>'"})
+ALL_KINDS = KINDS + DESC_KINDS
+DESC_ALPHABET = DESC_KINDS + 'CT'
 MODULE_LEVEL_REF = 'AH'      # kinds whose reference to n_j is evaluated at module level
 
 
@@ -164,6 +176,15 @@ def _block(i, j, k, ref, tag):
     if k == 'X':
         return ['class %s:' % n, '    def __getattr__(self, name):',
                 '        return %s().a' % ref]
+    if k == 'R':
+        return ['def %s():' % n, '    \"\"\"', '    :rtype: %s()' % ref, '    \"\"\"']
+    if k == 'S':
+        return ['def %s() -> "%s()":' % (n, ref), '    pass']
+    if k == 'Q':
+        return ['def %s(q):' % n, '    \"\"\"', '    :type q: %s()' % ref, '    \"\"\"',
+                '    return q']
+    if k == 'U':
+        return ['def %s(q: "%s()"):' % (n, ref), '    return q']
     raise ValueError(k)
 
 
@@ -231,7 +252,7 @@ SCALING = ['assign_chain', 'call_chain', 'inherit_chain', 'diamonds', 'call_tree
            'nested_containers', 'nested_closures', 'decorator_chain', 'import_chain',
            'assign_diamonds', 'attr_diamonds', 'instance_tree',
            'builtin_call_chain', 'builtin_op_chain', 'method_chain_builtin'] \
-    + ['chain_' + k for k in KINDS] + ['ring_' + k for k in KINDS]
+    + ['chain_' + k for k in ALL_KINDS] + ['ring_' + k for k in ALL_KINDS]
 
 
 def scaling(family, n):
